@@ -128,6 +128,15 @@ fn strict_implies_permissive(img: &[u8]) -> Option<(String, String, String)> {
 }
 
 fn overlap(a: &Deviation, b: &Deviation) -> bool {
+    // Two deviations that no reader can tell apart from damage are not "a combination of
+    // tolerated deviations": a DIFAT tail padded with zeros is recognised by counting against
+    // the header's FAT-sector count (src/lib.rs: "In case num_fat_sectors is not reliable, only
+    // remove zeroes" down to that count); if that count also overstates, the first padding zero
+    // IS a legal DIFAT entry (sector 0), and nothing in the file says otherwise.
+    let interferes = |x: &Deviation, y: &Deviation| x.recipe == "zero-padded-difat" && y.recipe == "wrong-num-fat-sectors" && y.place == "+1";
+    if interferes(a, b) || interferes(b, a) {
+        return true;
+    }
     a.edits.iter().any(|(o1, b1)| b.edits.iter().any(|(o2, b2)| *o1 < *o2 + b2.len() && *o2 < *o1 + b1.len()))
 }
 
